@@ -17,7 +17,7 @@ import langlib
 TEXTS = {
     "space": " ", "tab": "\t", "block": " /* c */ ", "block2": " /* a *//* b */ ", "blockml": " /* l1\n l2 */ ",
     "crlf": "\r\n", "crlfcomment": " // note\r\n",
-    "blockstars": " /**/ ", "blockdoc": " /** d **/ ", "blockslash": " /*/ ",
+    "blockstars": " /**/ ", "blockdoc": " /** d **/ ", "blockslash": " /*/ x /*/ ", "blockslash2": " /*/ note */ ",
     "newline": "\n", "linecomment": " // note\n", "hashcomment": " # note\n", "blankline": "\n\n",
 }
 
